@@ -166,8 +166,12 @@ func (e *Eval) Prepare(flags ...[]byte) error {
 	// variable, so that the virtual machine knows it should
 	// run a series of optimizations.
 	//
+	// It must not stay behind from an earlier call without NoOptimize.
+	//
 	if optimize {
 		e.environment.Set("OPTIMIZE", &object.Boolean{Value: true})
+	} else {
+		e.environment.Delete("OPTIMIZE")
 	}
 
 	//
